@@ -68,6 +68,7 @@ func (p *Processor) OnColumn(ctx context.Context, data []byte) (context.Context,
 	}
 	if !p.envelopeMatcher.Match(data[p.matchedHash.Length():]) {
 		p.matchedHash = nil
+		p.hashData = nil
 		return ctx, data, nil
 	}
 	p.rawData = make([]byte, len(data))
